@@ -114,6 +114,7 @@ def parse(text, res):
 
 _QUAL = {}
 _TREE_HASH = {}
+CMD_VERSION = "kani-flags-v2: -Z stubbing --no-memory-safety-checks --no-assertion-reach-checks field-sens"
 
 
 def tree_hash(variant_key):
@@ -125,8 +126,11 @@ def tree_hash(variant_key):
     h = hashlib.sha256()
     verif = os.path.dirname(os.path.dirname(os.path.abspath(__file__)))
     repo = os.environ.get("VERIF_REPO", "/repo")
-    roots = [os.path.join(repo, "src"), os.path.join(verif, "harness"), os.path.join(verif, "vlib")]
-    files = [os.path.join(repo, "Cargo.toml"), os.path.join(repo, "Cargo.lock")]
+    # what a verdict depends on: the crate, the harness tree, the overlay builder
+    # (rewrites, generated files) and the Kani/CBMC flags (part of the key via `flags`)
+    roots = [os.path.join(repo, "src"), os.path.join(verif, "harness")]
+    files = [os.path.join(repo, "Cargo.toml"), os.path.join(repo, "Cargo.lock"),
+             os.path.join(verif, "vlib", "overlay.py"), os.path.join(verif, "vlib", "shapes.py")]
     for r in roots:
         for dp, dn, fn in os.walk(r):
             dn.sort()
@@ -151,7 +155,7 @@ def cache_path(name, variant_key, flags):
     d = os.path.join(verif, "build", "cache")
     os.makedirs(d, exist_ok=True)
     import hashlib
-    k = hashlib.sha256((tree_hash(variant_key) + "|" + name + "|" + repr(flags)).encode()).hexdigest()[:32]
+    k = hashlib.sha256((tree_hash(variant_key) + "|" + name + "|" + repr(flags) + "|" + CMD_VERSION).encode()).hexdigest()[:32]
     return os.path.join(d, "%s-%s.json" % (name, k))
 
 
